@@ -46,6 +46,16 @@ def demo_files(sid):
 
 
 def run_demo(sid, m, d):
+    runner = os.path.join(SEEDED, sid, "run.sh")
+    if os.path.exists(runner):
+        # the agent's own demonstration driver (several build configurations / processes): re-target it
+        # from the agent's worktree to this scratch worktree and from its _seed directory to /verif/seeded
+        txt = open(runner).read().replace(f"/tmp/mut-{m['property']}", d).replace(f"_seed/{sid[len(m['property']):]}/", os.path.join(SEEDED, sid) + "/")
+        tmp = os.path.join(d, ".seed-demo-run.sh")
+        open(tmp, "w").write(txt)
+        rc, out = sh(["bash", tmp], cwd=d, timeout=2400)
+        os.remove(tmp)
+        return rc, out[-3000:]
     dd = os.path.join(d, m["demo_dir"])
     os.makedirs(dd, exist_ok=True)
     names = []
